@@ -13,7 +13,10 @@ while IFS=$'\t' read -r patch prop want; do
   [ -n "$pat" ] && [[ "$patch" != *$pat* ]] && continue
   tmp=$(mktemp -d /tmp/govc-selftest-XXXX)
   rsync -a --exclude .git /repo/ "$tmp/"
-  if ! (cd "$tmp" && patch -p1 -s < "/verif/selftest/$patch"); then echo "SELFTEST $patch: patch does not apply"; fail=1; rm -rf "$tmp"; continue; fi
+  if ! (cd "$tmp" && patch -p1 -s < "/verif/selftest/$patch" >/dev/null 2>&1); then
+    if [ -n "${VERIF_SELFTEST_SKIP_UNAPPLICABLE:-}" ]; then echo "SELFTEST $patch: skipped (does not apply to this tree)"; else echo "SELFTEST $patch: patch does not apply"; fail=1; fi
+    rm -rf "$tmp"; continue
+  fi
   out=$(bin/govc check -repo "$tmp" -prop "$prop" -verif /verif -outdir "/tmp/govc-selftest-out-$$" -noevidence 2>&1)
   if echo "$out" | grep -q "^VIOLATION property=$prop" && echo "$out" | grep -q "FAILED-OBLIGATION: .*$want"; then
     echo "SELFTEST $patch: caught ($prop, $want)"
